@@ -30,6 +30,10 @@ def gen(rng, tier):
             # a real file in a directory shared by all cases of this process, addressed by different spellings of one path
             c["path"] = {"name": rng.choice(["m0.nir", "m1.nir", "m0.nir"]), "w": rng.choice(SPELLINGS), "r": rng.choice(SPELLINGS)}
         cases.append(c)
+    # very deep nestings ("any nesting depth"): where the interpreter's recursion limit makes write give up is not the property's
+    # business, but a graph that write ACCEPTS is inside the claim: the file must read back (oracle only: no model term)
+    for depth in ([120, 300, 420, 640, 900] if tier == "quick" else [60, 120, 200, 300, 360, 420, 500, 640, 800, 900, 950]):
+        cases.append({"kind": "deep", "depth": depth, "recipe": None})
     return cases
 
 
@@ -56,7 +60,46 @@ def spell(name, how):
             "pathlib_rel": pathlib.Path(name)}[how]
 
 
+def run_deep(c):
+    import io
+    import numpy as np
+    import nir
+    g = nir.NIRGraph({"s": nir.Scale(np.arange(3, dtype="float32"))}, [("s", "s")])
+    try:
+        for i in range(c["depth"]):
+            g = nir.NIRGraph({"inner": g, "t": nir.Threshold(np.ones(2, dtype="float32") * i)}, [("inner", "t")])
+    except RecursionError:
+        return Outcome(None, None, False, ("deep", c["depth"]))
+    bio = io.BytesIO()
+    try:
+        with quiet():
+            nir.write(bio, g)
+    except BaseException:  # noqa: BLE001
+        return Outcome(None, None, False, ("deep", c["depth"], "rejected"))     # outside the claim
+    try:
+        with quiet():
+            g2 = nir.read(bio)
+    except BaseException as e:  # noqa: BLE001
+        return Outcome(None, f"write accepted a graph nested {c['depth']} deep but read raised {type(e).__name__}", True, ("deep", c["depth"]))
+    n, n2, d = g, g2, 0
+    fail = None
+    while fail is None:
+        if type(n2).__name__ != "NIRGraph" or sorted(n2.nodes) != sorted(n.nodes) or [tuple(e) for e in n2.edges] != [tuple(e) for e in n.edges]:
+            fail = f"nested {c['depth']} deep: level {d} read back with children {sorted(getattr(n2, 'nodes', {}))} / edges {getattr(n2, 'edges', None)}"
+        elif "inner" not in n.nodes:
+            if n2.nodes["s"].scale.tobytes() != n.nodes["s"].scale.tobytes():
+                fail = f"nested {c['depth']} deep: innermost parameter changed"
+            break
+        elif n2.nodes["t"].threshold.tobytes() != n.nodes["t"].threshold.tobytes():
+            fail = f"nested {c['depth']} deep: parameter at level {d} changed"
+        else:
+            n, n2, d = n.nodes["inner"], n2.nodes["inner"], d + 1
+    return Outcome(None, fail, True, ("deep", c["depth"]))
+
+
 def run(c):
+    if c.get("kind") == "deep":
+        return run_deep(c)
     r = V.dec_recipe(c["recipe"])
     b = try_build(r)
     sig = repr(c["recipe"])
